@@ -135,6 +135,8 @@ impl<'c> Slice<'c> {
 
                 record.substitution_matrix = substitution_matrix.clone();
             }
+
+            record.validate()?;
         }
 
         resolve_mates(&mut records)?;
